@@ -13,9 +13,12 @@ with the ordered list of its field names, files are records.  The model follows 
                       field assignment; requested elements the input lacks are skipped)
 * `stack`           — `stack`, lines 294-311 (pad to the common size on the *other* axis, concatenate)
 * `save`            — `save`, lines 260-278 (dispatch on the lower-cased suffix)
-* `run`             — `main`
+* `run`             — `main` on the loaded images
+* `overlay`/`configOf` — `load`, lines 62-70 (loader parameters assigned to a fresh `Config()`)
+* `loadMech`        — `load`, lines 13-60 (format dispatch, Agilent method fallback, exceptions)
+* `mainRun`         — `main` from the paths on: `check_exists`, `load` of every input, `--calibrate`, `run`
 
-The filter itself is an opaque function parameter.  The specification side (`specOutputs`,
+The filter and the library loaders are opaque function parameters.  The specification side (`specOutputs`,
 `restrictSpec`, `filterSpec`, `stackSpec`, `specRun`) says where files go and what they hold,
 without following the control flow of the code.  `RunEq` / `FilesEq` (end of the file) say when two
 results are the same — images are functions, so sameness is pointwise — and
@@ -210,9 +213,43 @@ structure Params where
   speed : Option Tok
   scantime : Option Tok
 
-/-- lines 62-72: a fresh `Config()` overlaid with the parameters the loader returned; an (x, y)
-spot spacing gives a `SpotConfig` (speed and scantime assigned to it afterwards are not stored) -/
-def configOf (dSpot dSpeed dScan : Tok) (p : Params) : Cfg :=
+/-- a configuration object in memory: `Config` (`spot = false`) or `SpotConfig`; the latter keeps the
+attributes `speed` and `scantime` of its base class (0.0 after `__init__`) beside `spotsize_y` -/
+structure MemCfg where
+  spot : Bool
+  spotsize : Tok
+  speed : Tok
+  scantime : Tok
+  spotsizeY : Tok
+
+/-- `to_array`: what an .npz keeps of a configuration (`SpotConfig.to_array` holds the two spacings only) -/
+def MemCfg.stored (c : MemCfg) : Cfg :=
+  if c.spot then .spot c.spotsize c.spotsizeY else .raster c.spotsize c.speed c.scantime
+
+/-- lines 14 and 62-70, statement by statement: `config = Config()`; `if "spotsize" in params:` a
+tuple gives `SpotConfig(*params["spotsize"])` (speed = scantime = 0.0; the token of 0.0 is 0), a
+number is assigned to `config.spotsize`; then `config.speed` and `config.scantime` are assigned
+when the loader reported them — also on a `SpotConfig`, where `to_array` does not keep them -/
+def overlay (dSpot dSpeed dScan : Tok) (p : Params) : MemCfg :=
+  let c : MemCfg := { spot := false, spotsize := dSpot, speed := dSpeed, scantime := dScan, spotsizeY := 0 }
+  let c := match p.spotsize with
+    | some (.two x y) => { spot := true, spotsize := x, speed := 0, scantime := 0, spotsizeY := y }
+    | some (.one s) => { c with spotsize := s }
+    | none => c
+  let c := match p.speed with
+    | some v => { c with speed := v }
+    | none => c
+  match p.scantime with
+    | some v => { c with scantime := v }
+    | none => c
+
+/-- the stored configuration of the image `load` builds -/
+def configOf (dSpot dSpeed dScan : Tok) (p : Params) : Cfg := (overlay dSpot dSpeed dScan p).stored
+
+/-- the configuration rule of the property ("the image exactly as the library's loader returns it"):
+an (x, y) spot spacing gives a `SpotConfig` of exactly these two numbers; otherwise a raster `Config`
+whose every field is the loader's parameter when it reported one and the `Config()` default when not -/
+def configSpec (dSpot dSpeed dScan : Tok) (p : Params) : Cfg :=
   match p.spotsize with
   | some (.two x y) => .spot x y
   | some (.one s) => .raster s (p.speed.getD dSpeed) (p.scantime.getD dScan)
@@ -256,10 +293,16 @@ def selected (sel : Option (List String)) (l : Laser) (n : String) : Bool :=
     | none => true
     | some s => s.isEmpty || s.contains n)
 
-/-- selected elements hold the filter applied to the original field, everything else is unchanged -/
+/-- selected elements hold the filter applied to the original field, everything else is unchanged:
+`done` pairs every selected element of the image with the filter of its ORIGINAL field (each filter
+call is made once, outside the pixel function) -/
 def filterSpec (f : String → Grid Tok → Grid Tok) (sel : Option (List String)) (l : Laser) : Laser :=
+  let done : List (String × Grid Tok) :=
+    (l.elements.filter (selected sel l)).map fun n => (n, f n (l.field n))
   let get : Nat → Nat → Px := fun i j n =>
-    if selected sel l n then (f n (l.field n)).get i j else l.data.get i j n
+    match done.lookup n with
+    | some g => g.get i j
+    | none => l.data.get i j n
   { l with data := { l.data with get := get } }
 
 /-- `__main__.stack`: the arrays must have the same fields (otherwise `np.concatenate` fails);
@@ -286,7 +329,9 @@ def stackLasersSpec (o : Orient) (pad : Tok) (ls : List Laser) : Option Laser :=
 inductive Content
   | npz (l : Laser)
   | csv (g : Grid Tok)
-  | vtk
+  /-- `io.vtk.save(path, laser.data, spacing)`: every element of the image; the spacing is computed
+  from the configuration -/
+  | vtk (l : Laser)
 
 structure File where
   path : Path
@@ -299,7 +344,7 @@ def save (l : Laser) (p : Path) : Except Fail (List File) :=
   else if lower p.suffix == ".npz" then
     pure [⟨p, .npz l⟩]
   else if lower p.suffix == ".vtk" then
-    pure [⟨p, .vtk⟩]
+    pure [⟨p, .vtk l⟩]
   else throw .crash
 
 /-- the files the property expects for image `l` at output `p` in format `format` -/
@@ -307,7 +352,7 @@ def specFiles (format : String) (l : Laser) (p : Path) : List File :=
   if format = ".csv" then
     l.elements.map fun n => ⟨{ p with stem := p.stem ++ "_" ++ n }, .csv (l.field n)⟩
   else if format = ".npz" then [⟨p, .npz l⟩]
-  else [⟨p, .vtk⟩]
+  else [⟨p, .vtk l⟩]
 
 /-! ## the whole run -/
 
@@ -445,7 +490,7 @@ def LaserEq (l l' : Laser) : Prop :=
 def ContentEq : Content → Content → Prop
   | .npz l, .npz l' => LaserEq l l'
   | .csv g, .csv g' => GridEq g g'
-  | .vtk, .vtk => True
+  | .vtk l, .vtk l' => LaserEq l l'
   | _, _ => False
 
 def FileEq (f f' : File) : Prop := f.path = f'.path ∧ ContentEq f.content f'.content
@@ -472,5 +517,279 @@ def specItem (cmd : Cmd) (x : Nat × Laser × Path) : List File :=
   match specStep cmd x.1 x.2.1 with
   | none => []
   | some l' => specFiles (lower x.2.2.suffix) l' x.2.2
+
+/-- image `l` has been written to output `out` in format `format`: among the files `fs` there is
+the .npz / .vtk file at exactly `out` holding an image that is the same as `l` (`LaserEq`: element
+names in order, configuration, shape, every pixel of every element), or, for .csv, for every element
+`n` of `l` the text image `<stem>_<n><suffix>` beside `out` holding the same grid as `l.field n` -/
+def Written (fs : List File) (format : String) (l : Laser) (out : Path) : Prop :=
+  (format = ".npz" → ∃ f ∈ fs, f.path = out ∧ ∃ m, f.content = .npz m ∧ LaserEq m l) ∧
+  (format = ".vtk" → ∃ f ∈ fs, f.path = out ∧ ∃ m, f.content = .vtk m ∧ LaserEq m l) ∧
+  (format = ".csv" → ∀ n ∈ l.elements, ∃ f ∈ fs,
+      f.path = { out with stem := out.stem ++ "_" ++ n } ∧ ∃ g, f.content = .csv g ∧ GridEq g (l.field n))
+
+/-! ## loading: `load` (lines 13-72) and the front end of `main`
+
+The library loaders and predicates are opaque: a `Source` records what `load` can ask about a path
+and what each library call it may make returns. -/
+
+/-- how a library call ends: with a result, with a `ValueError` (or a subclass such as
+`UnicodeDecodeError`), or with any other exception -/
+inductive Outcome (α : Type)
+  | ok (a : α)
+  | valueError
+  | otherError
+
+/-- `(data, params)` of a loader called with `full=True` (`io.textimage.load` has no parameters) -/
+structure Loaded where
+  elements : List String
+  data : Grid Px
+  params : Params
+
+/-- the library calls `load` chooses between -/
+inductive Loader
+  /-- `io.agilent.load(path, collection_methods=methods, full=True)` -/
+  | agilent (methods : List String)
+  /-- `io.perkinelmer.load(path, full=True)` -/
+  | perkinelmer
+  /-- `io.csv.load(path, full=True)` -/
+  | csvdir
+  /-- `io.npz.load(path)` -/
+  | npz
+  /-- `io.thermo.load(path, full=True)` -/
+  | thermo
+  /-- `io.textimage.load(path, name="_element_")` -/
+  | textimage
+  deriving DecidableEq, Repr
+
+structure Source where
+  path : Path
+  /-- `check_exists` -/
+  present : Bool
+  /-- `path.is_dir()` -/
+  isDir : Bool
+  /-- `io.perkinelmer.is_valid_directory(path)` -/
+  perkinValid : Bool
+  /-- `io.csv.is_valid_directory(path)` -/
+  csvValid : Bool
+  /-- `io.thermo.icap_csv_sample_format(path)` -/
+  sniff : Outcome String
+  /-- how `io.agilent.load_info(path)` ends -/
+  info : Outcome Unit
+  /-- the loaders that return `(data, params)` -/
+  call : Loader → Outcome Loaded
+  /-- `io.npz.load(path)`: a complete image with its stored configuration -/
+  npz : Outcome Laser
+
+/-- `path.suffix.lower()` -/
+def Source.sfx (s : Source) : String := lower s.path.suffix
+
+/-- `Laser(data=data, config=config, info=info)` with the configuration `cfg` makes of the parameters -/
+def Loaded.toLaser (cfg : Params → Cfg) (x : Loaded) : Laser :=
+  { elements := x.elements, data := x.data, config := cfg x.params }
+
+def agilentMethods : List (List String) := [["batch_xml", "batch_csv"], ["acq_method_xml"]]
+
+/-- lines 27-36: `data = None; for methods in …: try: data, params = io.agilent.load(…);
+info.update(io.agilent.load_info(path)); break; except ValueError: pass`.  The second argument is
+what `data, params` hold so far: a `ValueError` of `load_info` is caught by the same `except`, AFTER
+the assignment, so the loop goes on with the data in hand.  Any other exception — of the loader or
+of `load_info` — leaves `load`. -/
+def agilentLoop (s : Source) : List (List String) → Option (Loader × Loaded) →
+    Except Fail (Option (Loader × Loaded))
+  | [], data => .ok data
+  | m :: ms, data =>
+    match s.call (.agilent m) with
+    | .ok x =>
+      match s.info with
+      | .ok _ => .ok (some (.agilent m, x))                     -- break
+      | .valueError => agilentLoop s ms (some (.agilent m, x))   -- except ValueError: pass
+      | .otherError => .error .crash
+    | .valueError => agilentLoop s ms data
+    | .otherError => .error .crash
+
+/-- a single library call inside `load`: a `ValueError` reaches `parser.error` (exit status 2, usage
+text), any other exception is a traceback (exit status 1) -/
+def callOnce (s : Source) (ld : Loader) : Except Fail (Loader × Loaded) :=
+  match s.call ld with
+  | .ok x => .ok (ld, x)
+  | .valueError => .error .usage
+  | .otherError => .error .crash
+
+/-- `load`, lines 13-72, as the code branches: directory or not, then the lower-cased suffix.  The
+result names the library call whose data the image holds.  `.usage`: a `ValueError` (raised by
+`load` itself for an unknown extension or a batch no method can read, or by a library call), which
+`create_parser_and_parse_args` turns into `parser.error("argument input: …")`. -/
+def loadMech (d : Tok × Tok × Tok) (s : Source) : Except Fail (Loader × Laser) :=
+  let finish : Loader × Loaded → Loader × Laser := fun x => (x.1, x.2.toLaser (configOf d.1 d.2.1 d.2.2))
+  if s.isDir then
+    if s.sfx == ".b" then
+      match agilentLoop s agilentMethods none with
+      | .error e => .error e
+      | .ok none => .error .usage                 -- raise ValueError("unable to import batch …")
+      | .ok (some x) => .ok (finish x)
+    else if s.perkinValid then (callOnce s .perkinelmer).map finish
+    else if s.csvValid then (callOnce s .csvdir).map finish
+    else .error .usage                            -- raise ValueError("unknown extention …")
+  else
+    if s.sfx == ".npz" then
+      match s.npz with                            -- `return laser`: the stored configuration is kept
+      | .ok l => .ok (.npz, l)
+      | .valueError => .error .usage
+      | .otherError => .error .crash
+    else if s.sfx == ".csv" then
+      match s.sniff with
+      | .ok fmt =>
+        if fmt == "columns" || fmt == "rows" then (callOnce s .thermo).map finish
+        else (callOnce s .textimage).map finish
+      | .valueError => .error .usage
+      | .otherError => .error .crash
+    else if s.sfx == ".txt" || s.sfx == ".text" then (callOnce s .textimage).map finish
+    else .error .usage
+
+/-! ### specification of loading: a table -/
+
+/-- one row of the table of supported inputs: when it applies, and the library calls that may
+deliver the image, in the order in which they are tried -/
+structure Row where
+  name : String
+  guard : Source → Bool
+  candidates : List Loader
+
+def sniffIs (s : Source) (p : String → Bool) : Bool :=
+  match s.sniff with
+  | .ok fmt => p fmt
+  | _ => false
+
+def isThermo (fmt : String) : Bool := fmt == "columns" || fmt == "rows"
+
+/-! when each row applies -/
+def isAgilentBatch (s : Source) : Bool := s.isDir && s.sfx == ".b"
+def isPerkinDir (s : Source) : Bool := s.isDir && s.sfx != ".b" && s.perkinValid
+def isCsvDir (s : Source) : Bool := s.isDir && s.sfx != ".b" && !s.perkinValid && s.csvValid
+def isNpzFile (s : Source) : Bool := !s.isDir && s.sfx == ".npz"
+def isThermoCsv (s : Source) : Bool := !s.isDir && s.sfx == ".csv" && sniffIs s isThermo
+def isTextImage (s : Source) : Bool :=
+  !s.isDir && ((s.sfx == ".csv" && sniffIs s (fun f => !isThermo f)) || s.sfx == ".txt" || s.sfx == ".text")
+
+def rowAgilent : Row :=
+  { name := "Agilent batch: a directory named *.b (any case)",
+    guard := isAgilentBatch, candidates := agilentMethods.map .agilent }
+def rowPerkin : Row :=
+  { name := "PerkinElmer directory: any other directory that holds *.xl files",
+    guard := isPerkinDir, candidates := [.perkinelmer] }
+def rowCsvDir : Row :=
+  { name := "CSV directory: any other directory that holds *.csv files and no *.xl file",
+    guard := isCsvDir, candidates := [.csvdir] }
+def rowNpz : Row :=
+  { name := "pew image: a file named *.npz (any case)",
+    guard := isNpzFile, candidates := [.npz] }
+def rowThermo : Row :=
+  { name := "Thermo iCap CSV: a file named *.csv (any case) with 'MainRuns' in line 1 or 3",
+    guard := isThermoCsv, candidates := [.thermo] }
+def rowText : Row :=
+  { name := "text image: any other readable *.csv file, or a file named *.txt / *.text (any case)",
+    guard := isTextImage, candidates := [.textimage] }
+
+/-- the supported inputs.  The guards exclude one another (`PewTheorems.C20.table_exclusive`), so
+the order of the rows means nothing. -/
+def table : List Row := [rowAgilent, rowPerkin, rowCsvDir, rowNpz, rowThermo, rowText]
+
+/-- what the library call `ld` on this path gives, as the image `load` is to return: an .npz is
+returned as stored; `(data, params)` become an image with the configuration rule `configSpec` -/
+def Source.image (d : Tok × Tok × Tok) (s : Source) (ld : Loader) : Outcome Laser :=
+  match ld with
+  | .npz => s.npz
+  | _ =>
+    match s.call ld with
+    | .ok x => .ok (x.toLaser (configSpec d.1 d.2.1 d.2.2))
+    | .valueError => .valueError
+    | .otherError => .otherError
+
+def Outcome.isValueError {α} : Outcome α → Bool
+  | .valueError => true
+  | _ => false
+
+def Outcome.isOther {α} : Outcome α → Bool
+  | .otherError => true
+  | _ => false
+
+def okOf {α β} (x : α × Outcome β) : Option (α × β) :=
+  match x.2 with
+  | .ok b => some (x.1, b)
+  | _ => none
+
+/-- which of the attempted library calls delivers the image; `info` is how `load_info` ends for this
+path (consulted after a successful Agilent call only: `Source.infoFor`).  Ordinarily the first call that does not end in a
+`ValueError` decides: its result is the image, or its (other) exception ends the run.  When
+`load_info` fails with a `ValueError`, every call is made — unless one ends in another exception —
+and the last successful one delivers.  When `load_info` fails otherwise, the first successful call
+is followed by that failure.  No successful call: usage error. -/
+def choose {α} (info : Outcome Unit) (os : List (Loader × Outcome α)) : Except Fail (Loader × α) :=
+  match info with
+  | .valueError =>
+    if os.any (·.2.isOther) then .error .crash
+    else match (os.filterMap okOf).getLast? with
+      | some x => .ok x
+      | none => .error .usage
+  | .ok _ =>
+    match os.find? (fun o => !o.2.isValueError) with
+    | none => .error .usage
+    | some o =>
+      match o.2 with
+      | .ok a => .ok (o.1, a)
+      | _ => .error .crash
+  | .otherError =>
+    match os.find? (fun o => !o.2.isValueError) with
+    | none => .error .usage
+    | some _ => .error .crash
+
+/-- `load_info` is called for Agilent batches only -/
+def Source.infoFor (s : Source) (row : Row) : Outcome Unit :=
+  if row.candidates.all (fun ld => match ld with | .agilent _ => true | _ => false) then s.info else .ok ()
+
+/-- the specification of `load`: a `.csv` file that cannot be sniffed is rejected; otherwise the
+(at most one) row of the table that applies names the candidates and `choose` picks among their
+outcomes; no row: the input is not supported (usage error, nothing is loaded) -/
+def loadSpec (d : Tok × Tok × Tok) (s : Source) : Except Fail (Loader × Laser) :=
+  match table.filter (·.guard s) with
+  | [row] => choose (s.infoFor row) (row.candidates.map fun ld => (ld, s.image d ld))
+  | _ =>
+    if !s.isDir && s.sfx == ".csv" && s.sniff.isOther then .error .crash else .error .usage
+
+/-! ### the front end of `main` -/
+
+structure CmdLine where
+  cmd : Cmd
+  /-- `--calibrate` was given -/
+  calibrate : Bool
+  sources : List Source
+  format : String
+  output : Option Path
+  isDir : Path → Bool
+  /-- the fields of `Config()` -/
+  defaults : Tok × Tok × Tok
+
+/-- the arguments after `args.lasers = [load(input) for input in args.input]` -/
+def CmdLine.args (c : CmdLine) (ls : List (Loader × Laser)) : Args :=
+  { cmd := c.cmd, format := c.format, output := c.output, isDir := c.isDir,
+    inputs := (c.sources.zip ls).map fun x => { path := x.1.path, present := x.1.present, laser := x.2.2 } }
+
+/-- `main` from the command line on, with `load` and the rest as parameters: `check_exists` rejects a
+missing input while the arguments are parsed; then every input is loaded, in order, and the first
+failure ends the run (nothing has been written yet); `--calibrate` is an unknown option for
+`convert` / `filter` and `raise NotImplementedError` in `stack`; then the run proper -/
+def mainWith (load : Source → Except Fail (Loader × Laser)) (runner : Args → Result) (c : CmdLine) : Result :=
+  if c.sources.any (fun s => !s.present) then ⟨.error, []⟩
+  else
+    match c.sources.mapM load with
+    | .error _ => ⟨.error, []⟩
+    | .ok ls => if c.calibrate then ⟨.error, []⟩ else runner (c.args ls)
+
+/-- `main` -/
+def mainRun (c : CmdLine) : Result := mainWith (loadMech c.defaults) run c
+
+/-- what the property says of a command line -/
+def specMain (c : CmdLine) : Result := mainWith (loadSpec c.defaults) specRun c
 
 end Pew.Cli
